@@ -68,6 +68,9 @@ func basics() []basic {
 		{"seq 1:3", "SeqNum", imap.SearchCriteria{SeqNum: []imap.SeqSet{seq(1, 3)}}},
 		{"uid 2", "UID", imap.SearchCriteria{UID: []imap.UIDSet{uid(2, 2)}}},
 		{"uid 9:*", "UID", imap.SearchCriteria{UID: []imap.UIDSet{uid(9, 0)}}},
+		// the saved-search marker "$": an empty set with an identity; without a saved result it
+		// selects nothing, and that constraint must survive And like any other
+		{"uid $", "UID", imap.SearchCriteria{UID: []imap.UIDSet{imap.SearchRes()}}},
 		{"since d", "Since", imap.SearchCriteria{Since: d(0)}},
 		{"since d+1", "Since", imap.SearchCriteria{Since: d(1)}},
 		{"before d", "Before", imap.SearchCriteria{Before: d(0)}},
@@ -230,6 +233,7 @@ func keys() []key {
 	}
 	ks := []key{
 		{"ALL", func(m *refmodel.Msg) bool { return true }},
+		{"$", func(m *refmodel.Msg) bool { return false }}, // no saved result in the reference: selects nothing
 		{"ANSWERED", flag("\\Answered")}, {"DELETED", flag("\\Deleted")}, {"DRAFT", flag("\\Draft")},
 		{"FLAGGED", flag("\\Flagged")}, {"SEEN", flag("\\Seen")}, {"RECENT", flag("\\Recent")},
 		{"UNANSWERED", not(flag("\\Answered"))}, {"UNDELETED", not(flag("\\Deleted"))}, {"UNDRAFT", not(flag("\\Draft"))},
@@ -427,7 +431,7 @@ func main() {
 		c := b.c
 		leaves = append(leaves, &operand{name: "NOT(" + b.name + ")", c: &imap.SearchCriteria{Not: []imap.SearchCriteria{*refmodel.CloneCriteria(&c)}}, leaf: true})
 	}
-	orIdx := []int{0, 3, 5, 8, 13, 16, 20, 23, 25, 28}
+	orIdx := []int{0, 3, 5, 6, 9, 14, 17, 21, 24, 26, 29}
 	for _, i := range orIdx {
 		for _, j := range orIdx {
 			if i == j {
@@ -468,6 +472,9 @@ func main() {
 			continue
 		}
 		fieldsSeen[b.field] = true
+		if b.name == "uid $" {
+			continue // selects nothing by construction
+		}
 		if n := pop(leaves[i].bits); n == 0 || n == len(universe) {
 			run.EngineError("leaf %q is trivial on the universe (%d matches)", b.name, n)
 		}
